@@ -70,7 +70,7 @@ type Broker struct {
 	// Acks the client sent for broker->client messages
 	ClientAcks []WireEvent
 	// FaultLog lists the faults injected
-	FaultLog []string
+	FaultLog  []string
 	nextOutID uint16
 }
 
